@@ -214,11 +214,12 @@ class TEnum(Ty):
 class TMap(Ty):
     """dict: array K -> Opt[V]; insertion order is tracked only when a contract asks (ghost)."""
 
-    def __init__(self, k, v):
+    def __init__(self, k, v, total=False):
         self.k = k
         self.v = v
         self.vopt = TOpt(v)
-        self.key = f'Map[{k.key},{v.key}]'
+        self.total = total        # collections.defaultdict: reading a missing key yields the (empty) default
+        self.key = f'{"DefaultMap" if total else "Map"}[{k.key},{v.key}]'
 
     def sort(self):
         return z3.ArraySort(self.k.sort(), self.vopt.sort())
@@ -291,6 +292,8 @@ def _pt(n, enums):
             return TTuple([_pt(a, enums) for a in args])
         if head == 'Map':
             return TMap(_pt(args[0], enums), _pt(args[1], enums))
+        if head == 'DefaultMap':
+            return TMap(_pt(args[0], enums), _pt(args[1], enums), total=True)
         if head == 'Set':
             return TSet(_pt(args[0], enums))
         if head == 'Ref':
